@@ -20,7 +20,7 @@ WaiterAt(p) == CASE p = "counter.wait.0" -> "W0" [] p = "counter.wait.1" -> "W1"
 
 Reset == /\ gpc' = [g \in Guards |-> IF g <= Ev.n THEN "held" ELSE "none"]
          /\ count' = Ev.n /\ wpc' = "W0" /\ epoch' = 0 /\ armed' = NotArmed
-         /\ running' = 1..Ev.n /\ cancelled' = {}
+         /\ running' = 1..Ev.n /\ cancelled' = {} /\ exitk' = [g \in Guards |-> "none"]
 
 Observe == /\ l <= Len(Rec) /\ l' = l + 1
            /\ \/ Ev.name = "reset" /\ Reset /\ started' = {} /\ wstarted' = FALSE
@@ -41,7 +41,7 @@ Hidden  == /\ l <= Len(Rec) /\ UNCHANGED <<l, started, wstarted>>
               \/ \E g \in started : G1(g) \/ G2(g)
 
 TInit == /\ gpc = [g \in Guards |-> "none"] /\ count = 0 /\ wpc = "Done" /\ epoch = 0 /\ armed = NotArmed
-         /\ running = {} /\ cancelled = {}
+         /\ running = {} /\ cancelled = {} /\ exitk = [g \in Guards |-> "none"]
          /\ l = 1 /\ started = {} /\ wstarted = FALSE /\ TLCSet(1, 1)
 TNext == Observe \/ Hidden
 TSpec == TInit /\ [][TNext]_tvars
